@@ -118,6 +118,38 @@ func genC11(tier, out string, sum *Summary) {
 		}
 	}
 	lit := func(i int64) string { return "`" + strconv.FormatInt(i, 10) + "`" }
+	// every walk over strings whose code points have different widths next to each other: long enough
+	// that several code points are skipped between two selected ones, in both directions
+	for _, ms := range []string{"aébcd", "a𝌆b✓cédef", "日本a語bキc", "é€😀aé€😀a", "ab😀", "😀ba", "aé"} {
+		rs := []rune(ms)
+		l := int64(len(rs))
+		opt := []*int64{nil}
+		for _, v := range []int64{0, 1, 2, -1, -2, l - 1, l, -l, -l - 1, l + 2, 4} {
+			w := v
+			opt = append(opt, &w)
+		}
+		cnt := 0
+		for _, a := range opt {
+			for _, b := range opt {
+				for _, st := range []int64{-4, -3, -2, -1, 1, 2, 3, 4} {
+					cnt++
+					if tier != "thorough" && cnt%5 != 0 && !(a == nil && b == nil) {
+						continue
+					}
+					txt := "s["
+					if a != nil {
+						txt += strconv.FormatInt(*a, 10)
+					}
+					txt += ":"
+					if b != nil {
+						txt += strconv.FormatInt(*b, 10)
+					}
+					txt += ":" + strconv.FormatInt(st, 10) + "]"
+					expect("slice-walk", txt, map[string]any{"s": ms}, string(pySlice(rs, a, b, st)))
+				}
+			}
+		}
+	}
 	for i := 0; i < n; i++ {
 		s := cpString(8)
 		rs := []rune(s)
